@@ -2635,6 +2635,8 @@ pub fn get_random_module(&self, source: &mut GenerationSource) -> (r: Result<VfT
         old(self).min_opcodes < 0x1_0000_0000 && old(self).max_opcodes < 0x1_0000_0000,
     ensures
         res is Ok, // @C09
+        // the configuration (seed included) is the same after the call: the next call on this generator sees the same knobs
+        final(self).same_config_but_proto(old(self)), // @C08 @C07
 //@before 1 self.generate_internal(
         // C07: with a seed set, the only entropy of the call is the ChaCha8 stream of that seed
         proof { assert(old(self).seed is Some ==> source.origin() == VfOrigin::Seed(old(self).seed->Some_0)); } // @C07
@@ -2653,6 +2655,7 @@ pub fn get_random_module(&self, source: &mut GenerationSource) -> (r: Result<VfT
         old(self).min_opcodes < 0x1_0000_0000 && old(self).max_opcodes < 0x1_0000_0000,
     ensures
         res is Ok, // @C09
+        final(self).same_config_but_proto(old(self)), // @C08 @C07
 //@before 1 self.generate_internal(
         // C07: the only entropy of the call is the caller's byte string
         proof { assert(source.origin() == VfOrigin::Bytes(data@)); } // @C07
